@@ -10,21 +10,33 @@ import ninja_py
 
 GEN_PY = '''#!/usr/bin/env python3
 import sys, os
-# usage: gen.py OUT [INPUT...] -- token
+# usage: gen.py OUT [INPUT...] [--depfile F]
 args = sys.argv[1:]
 out = args[0]
-ins = [a for a in args[1:] if a != '--' ]
+rest = args[1:]
+depfile = None
+if '--depfile' in rest:
+    k = rest.index('--depfile')
+    depfile = rest[k + 1]
+    rest = rest[:k] + rest[k + 2:]
+ins = rest
 base = os.path.basename(out)
-name = re_name = ''.join(ch if ch.isalnum() else '_' for ch in base.split('.')[0])
+name = ''.join(ch if ch.isalnum() else '_' for ch in base.split('.')[0])
 body = ''
 for i in ins:
-    if os.path.exists(i):
-        body += open(i).read()
+    if not os.path.exists(i):
+        sys.stderr.write('gen.py: missing input %s\\n' % i)
+        sys.exit(1)
+    body += open(i).read()
 if out.endswith('.h'):
     open(out, 'w').write('#ifndef H_%s\\n#define H_%s\\n#define VAL_%s %d\\n#endif\\n' % (name, name, name, len(body) % 97))
+elif out.endswith('.dat'):
+    open(out, 'w').write('table %d\\n' % (len(body) % 83))
 else:
     inc = ''.join('#include "%s"\\n' % os.path.basename(i) for i in ins if i.endswith('.h'))
     open(out, 'w').write(inc + 'int f_%s(void) { return %d; }\\n' % (name, len(body) % 89))
+if depfile:
+    open(depfile, 'w').write('%s: %s\\n' % (out, ' '.join(ins)))
 '''
 
 
@@ -71,6 +83,22 @@ def gen_project(rng, idx):
             mb.append("gsrc%d = custom_target('gsrc%d', input : ['tmpl%d.in', hdr%d], output : 'gsrc%d.c', command : [gen, '@OUTPUT@', '@INPUT@'])" % (c, c, c, h, c))
         srcs_gen.append(c)
     mb.append("g = generator(gen, output : '@BASENAME@.c', arguments : ['@OUTPUT@', '@INPUT@'])")
+    # a generator that needs a generated data file (depends:), optionally with a depfile, and a
+    # custom target with a depfile
+    g2 = rng.random() < 0.6
+    if g2:
+        mb.append("table = custom_target('table', output : 'table.dat', command : [gen, '@OUTPUT@'])")
+        df = ", depfile : '@BASENAME@.d'" if rng.random() < 0.6 else ''
+        dfa = ", '--depfile', '@DEPFILE@'" if df else ''
+        mb.append("g2 = generator(gen, output : '@BASENAME@_g2.c'%s, depends : table, arguments : ['@OUTPUT@', '@INPUT@', '@BUILD_ROOT@/table.dat'%s])" % (df, dfa))
+        if rng.random() < 0.5:
+            files['ct.in'] = 'ct\n'
+            mb.append("ctd = custom_target('ctd', input : 'ct.in', output : 'ctd.c', depfile : 'ctd.d', depends : table, command : [gen, '@OUTPUT@', '@INPUT@', '@OUTDIR@/table.dat', '--depfile', '@DEPFILE@'])")
+            ctd = True
+        else:
+            ctd = False
+    else:
+        ctd = False
     # libraries
     nl = rng.randint(0, 2)
     for l in range(nl):
@@ -102,6 +130,11 @@ def gen_project(rng, idx):
         if rng.random() < 0.5:
             files[('sub/' if in_sub else '') + 'x%d.in' % e] = 'x %d\n' % e
             src_args.append("g.process('x%d.in')" % e); decls.append('int f_x%d(void);' % e); calls.append('f_x%d()' % e)
+        if g2 and rng.random() < 0.6:
+            files[('sub/' if in_sub else '') + 'y%d.in' % e] = 'y %d\n' % e
+            src_args.append("g2.process('y%d.in')" % e); decls.append('int f_y%d_g2(void);' % e); calls.append('f_y%d_g2()' % e)
+        if ctd and rng.random() < 0.5:
+            src_args.append('ctd'); decls.append('int f_ctd(void);'); calls.append('f_ctd()'); ctd = False
         include_h = rng.random() < 0.7
         body = ('#include "gen%d.h"\n' % h if include_h else '') + '\n'.join(decls) + '\nint main(void) { return 0%s%s; }\n' % (
             ''.join(' + ' + c for c in calls), (' + VAL_gen%d' % h) if include_h else '')
@@ -131,6 +164,11 @@ def gen_project(rng, idx):
         mb.append("tool = executable('tool', 'tool.c', native : true)")
         mb.append("tout = custom_target('tout', output : 'tooled.c', command : [tool, '@OUTPUT@'])")
         mb.append("executable('usetool', 'usetool.c', tout)")
+        if rng.random() < 0.5:
+            files['z.in'] = 'z\n'
+            files['usegen.c'] = 'int tooled(void); int main(void) { return tooled() - 7; }\n'
+            mb.append("tg = generator(tool, output : '@BASENAME@_t.c', arguments : ['@OUTPUT@'])")
+            mb.append("executable('usegen', 'usegen.c', tg.process('z.in'))")
     files['meson.build'] = '\n'.join(mb) + '\n'
     return files
 
